@@ -40,7 +40,8 @@ Section Ecdsa.
   Variable add : pt -> pt -> pt.
   Variable smul : Z -> pt -> pt.
   Variable G : pt.
-  Variable n : Z.
+  Variable n : Z.                       (* self._order *)
+  Variable p : Z.                       (* self._p, the field prime (only compared with r in recover) *)
   Variable coords : pt -> option (Z * Z).
   Variable lift_x : Z -> option (pt * pt).
   Variable gen_k : Z -> Z -> Z -> outcome Z.
@@ -92,7 +93,10 @@ Section Ecdsa.
       do o <- sign_step secret_exponent val k;
       match o with
       | Some sig => Ret sig
-      | None => sign_loop f secret_exponent val (k + 1)
+      | None =>
+        let k := k + 1 in
+        let k := if n <=? k then 1 else k in             (* if k >= n: k = 1 *)
+        sign_loop f secret_exponent val k
       end
     end.
 
@@ -109,6 +113,7 @@ Section Ecdsa.
   (* possible_public_pairs_for_signature(value, (r, s), y_parity) *)
   Definition recover (value r s : Z) (y_parity : option Z) : outcome (list pt) :=
     if out_of_range r s then Ret []
+    else if p <=? r then Ret []                          (* if r >= self._p: return [] *)
     else
       match lift_x r with
       | None => Ret []                                   (* except ValueError *)
